@@ -238,3 +238,45 @@ func init() {
 			}
 		}})
 }
+
+func init() {
+	register(&Rule{ID: "ANCHOR.slot", Min: 4, Text: "an element's slot is found through the element map: in RGATreeList no read of nodeMapByCreatedAt (the map of position slots, keyed by position identity) uses a key computed from an Element's CreatedAt() — an element that was moved sits in the slot elementMapByCreatedAt[id].positionNode, and its own creation ticket still names the dead slot it left; only the insertion of a new element writes nodeMapByCreatedAt under the element's ticket (the two identities coincide until the first move)",
+		Run: func(x *Ctx) {
+			slotF := x.P.Field(crdtPkg + ".RGATreeList.nodeMapByCreatedAt")
+			elemI := x.P.Named(crdtPkg + ".Element")
+			if slotF == nil || elemI == nil {
+				x.C.Unresolved(x.id(), "RGATreeList.nodeMapByCreatedAt / crdt.Element")
+				return
+			}
+			fromElement := func(k ssa.Value) bool {
+				return prog.DependsOn(k, func(w ssa.Value) bool {
+					c, ok := prog.Strip(w).(*ssa.Call)
+					if !ok {
+						return false
+					}
+					if c.Call.IsInvoke() && c.Call.Method.Name() == "CreatedAt" && isNamed(c.Call.Value.Type(), elemI) {
+						return true
+					}
+					return false
+				})
+			}
+			n := 0
+			for _, fn := range x.P.FuncsIn(crdtPkg) {
+				i := 0
+				for _, b := range fn.Blocks {
+					for _, ins := range b.Instrs {
+						lk, ok := ins.(*ssa.Lookup)
+						if !ok || prog.LoadedField(lk.X) != slotF {
+							continue
+						}
+						i++
+						n++
+						x.check(!fromElement(lk.Index), fmt.Sprintf("func=%s slot-read#%d not-keyed-by-element-identity", prog.FnName(fn), i), x.pos(lk), "the slot is looked up by a position identity", "a position slot is looked up under an element's own CreatedAt(): for an element that was moved this is the dead slot it left, not the slot it occupies")
+					}
+				}
+			}
+			if n < 4 {
+				x.C.Vacuous(x.id()+" slot reads", n, 4)
+			}
+		}})
+}
